@@ -134,6 +134,7 @@ def main(argv=None):
 
     replay_spec = None
     if a.replay:
+        a.replay = os.path.abspath(a.replay)  # the workers run in a scratch directory
         with open(a.replay) as f:
             replay_spec = json.load(f)
         tier = replay_spec.get("tier", tier)
